@@ -32,7 +32,7 @@ KEY_UNICODE = 'multipart-header-unicode-decode-error'
 KEY_LANG = 'filename-star-language-tag-hyphen'
 KEY_COMMA = 'boundary-comma-unsupported-media-type'
 
-DEFAULT_LIMITS = {'count': 64, 'buffer': 1024 * 1024, 'headers': 8192}
+DEFAULT_LIMITS = {'count': 64, 'buffer': 1024 * 1024, 'headers': 8192, 'charset': 'utf-8'}
 SMALL_ICS = (96, 80, 128)        # internal buffer sizes used to amplify buffer-edge coverage (>= 74 = longest delimiter)
 
 
@@ -345,7 +345,10 @@ def execute(stack, body, ctype, plan, transport=None, ics=None, limits=None, asg
     # untouched options keep whatever a fresh MultipartParseOptions() carries (the documented defaults are
     # part of the oracle: DEFAULT_LIMITS)
     orig = (opts.max_body_part_count, opts.max_body_part_buffer_size, opts.max_body_part_headers_size)
+    orig_charset = opts.default_charset
     lim = limits or {}
+    if 'charset' in lim:
+        opts.default_charset = lim['charset']
     if 'count' in lim:
         opts.max_body_part_count = lim['count']
     if 'buffer' in lim:
@@ -383,6 +386,7 @@ def execute(stack, body, ctype, plan, transport=None, ics=None, limits=None, asg
         GUARD.disarm()
         sreader.DEFAULT_CHUNK_SIZE, areader.DEFAULT_CHUNK_SIZE = old
         opts.max_body_part_count, opts.max_body_part_buffer_size, opts.max_body_part_headers_size = orig
+        opts.default_charset = orig_charset
     o.status = res.status
     o.records = H.records
     o.exc = H.exc
@@ -444,9 +448,6 @@ def apply_edit(body, edit):
         return body[:pos]
     raise AssertionError(edit)
 
-
-TEXT_TYPES = {None: 'utf-8', 'text/plain': 'utf-8', 'text/plain; charset=utf-8': 'utf-8',
-              'text/plain; charset=latin-1': 'latin-1', 'text/plain;charset=UTF-8': 'utf-8'}
 
 MEDIA_PARTS = [   # (ctype, content, expected media) - the only parts on which get_media() is planned
     ('application/json', b'{"count": 6, "numbers": [1, 2, 6, 24, 120, 720]}', {'count': 6, 'numbers': [1, 2, 6, 24, 120, 720]}),
@@ -516,7 +517,7 @@ def report(rec, kind, wit, known_key=None):
     rec.violation(kind, wit, known_key=known_key)
 
 
-def judge_ops(p, op, outs, buf_limit):
+def judge_ops(p, op, outs, buf_limit, default_charset='utf-8'):
     """Compare what one consumption op returned with the encoded content. -> None | reason"""
     c = p.content
     k = op[0]
@@ -582,8 +583,11 @@ def judge_ops(p, op, outs, buf_limit):
             return None if outs == ['TOO_LARGE'] else 'oversized part not refused by get_data'
         return None if outs == [c] else 'get_data != content'
     if k == 'text':
-        if p.ctype in TEXT_TYPES:
-            return None if outs == [c.decode(TEXT_TYPES[p.ctype])] else 'get_text != decoded content'
+        want = M.model_text(c, p.ctype, default_charset)
+        if want[0] == 'ok':
+            return None if outs == [want[1]] else 'get_text != decoded content'
+        if want[0] == 'fail':
+            return 'get_text returned something for a part that cannot be decoded'
         return None if outs == [None] else 'get_text on a non-text part is not None'
     if k == 'media':
         return None if outs == [MEDIA_EXPECT[(p.ctype, p.content)]] else 'get_media != expected document'
@@ -600,12 +604,10 @@ def expected_failure(parts, plan, lim):
         op = plan[i]
         if op[0] in ('data', 'data2') and len(p.content) > lim['buffer']:
             return (i, 'op', 'buffer')
-        if op[0] == 'text' and p.ctype in TEXT_TYPES:
+        if op[0] == 'text' and M.text_label(p.ctype, lim['charset']) is not None:
             if len(p.content) > lim['buffer']:
                 return (i, 'op', 'buffer')
-            try:
-                p.content.decode(TEXT_TYPES[p.ctype])
-            except UnicodeDecodeError:
+            if M.model_text(p.content, p.ctype, lim['charset'])[0] == 'fail':
                 return (i, 'op', 'text')
     return None
 
@@ -632,7 +634,7 @@ def check_records(rec, parts, plan, lim, records, upto, stack):
         if not r['done']:
             return ('part-not-finished', {'index': i}, None)
         rec.count('mon.op.' + plan[i][0])
-        bad = judge_ops(p, plan[i], r['outs'], lim['buffer'])
+        bad = judge_ops(p, plan[i], r['outs'], lim['buffer'], lim['charset'])
         if bad:
             known = None
             return ('part-content-mismatch', {'index': i, 'op': plan[i], 'reason': bad, 'got': r['outs'][:3],
@@ -1205,6 +1207,50 @@ def phase_align_corrupt(rec):
     rec.count('phase.F.done')
 
 
+# charset labels a part's Content-Type (or parse_options.default_charset) may carry: aliases, case, legacy and multi-byte
+# codecs, stateful / escape codecs, codecs that are not text encodings, the always-failing 'undefined' codec, unknown and
+# empty labels, and a label with an embedded NUL (what bytes.decode() does with each is the model's business)
+CHARSET_LABELS = ['utf-8', 'UTF-8', 'utf8', 'Utf_8', 'latin-1', 'iso-8859-1', 'ISO-8859-15', 'ascii', 'us-ascii', 'cp1252',
+                  'windows-1252', 'utf-16', 'utf-16le', 'utf-16-be', 'utf-32', 'utf-7', 'utf-8-sig', 'big5', 'shift_jis',
+                  'euc-jp', 'gb2312', 'gb18030', 'koi8-r', 'cp037', 'cp437', 'mac-roman', 'idna', 'punycode',
+                  'unicode_escape', 'raw_unicode_escape', 'undefined', 'hex', 'base64', 'rot13', 'rot_13', 'zlib', 'bz2', 'uu',
+                  'quopri', 'mbcs', 'oem', 'x-unknown', 'utf-9', '', ' ', 'utf-8\x00', '\x00', 'a' * 300, 'utf-8 ', '*', '8859']
+TEXT_CONTENTS = [b'', b'plain ascii', b'caf\xc3\xa9 \xe2\x82\xac', b'caf\xe9', b'\xff\xfeh\x00i\x00', b'a\x00b', b'\\x41\\u20ac\\',
+                 b'xn--caf-dma', b'\x80\x81\xfe\xff', b'+AGEAYg-', b'\xef\xbb\xbfbom', b'\r\n--\r\n']
+
+
+def phase_text(rec):
+    """T: get_text() over charset labels x contents, label given as parameter / quoted parameter / configured default."""
+    idx = 0
+    for label in CHARSET_LABELS:
+        for content in TEXT_CONTENTS:
+            for how in ('param', 'quoted', 'default', 'default+plain'):
+                idx += 1
+                if idx % rec.nshards != rec.shard:
+                    continue
+                limits = None
+                if how == 'param':
+                    ct = 'text/plain; charset=' + label
+                elif how == 'quoted':
+                    if '"' in label or '\\' in label:
+                        continue
+                    ct = 'text/plain;CHARSET="%s"' % label
+                else:
+                    ct = None if how == 'default' else 'text/plain'
+                    limits = {'charset': label}
+                if ct is not None and ct != ct.strip():
+                    continue      # a trailing blank of an unquoted value is not part of the value
+                p = Part('t', content, ctype=ct)
+                k = idx // rec.nshards
+                parts = [p, Part('after', b'\r\n--z')] if k % 2 else [Part('before', b'q'), p, Part('after', b'z')]
+                plan = [('text',), ('read_all',)] if k % 2 else [('read', 1), ('text',), ('text',)]
+                do_case(rec, make_case(b'ab', parts, plan, limits=limits, ics=(None, 96)[(k // 2) % 2],
+                                       transport=(None, 1, 7)[(k // 4) % 3], tag='T'))
+                w = M.model_text(content, ct, label if limits else 'utf-8')
+                rec.count('text.' + w[0])
+    rec.count('phase.T.done')
+
+
 EDIT_BYTES = [0x0d, 0x0a, 0x2d, 0x22, 0xff, 0x41, 0x3b, 0x20, 0x00, 0x3a]
 
 
@@ -1225,7 +1271,7 @@ def corruption_bases(rec):
 
 
 CORRUPT_PLANS = [('read_all',), ('skip',), ('data',), ('read', 2), ('loop', 3), ('until', b'\n', False),
-                 ('mix', 2, b'\n'), ('read_rest', 1), ('until_n', b'-', 3)]
+                 ('mix', 2, b'\n'), ('read_rest', 1), ('until_n', b'-', 3), ('text',)]
 
 
 def phase_corrupt(rec):
@@ -1322,8 +1368,16 @@ def rand_part(rng, b, j):
         fn = rng.choice(QVALS)
     if rng.random() < 0.05:
         name = ''.join(rng.choice('a"\\;,= ') for _ in range(rng.randint(1, 8))).rstrip('\\') or '"'
-    return Part(name, rand_content(rng, b), filename=fn,
-                ext=rng.choice(EXTS) if rng.random() < 0.3 else None, ctype=rng.choice(CTYPES), style=st)
+    ct = rng.choice(CTYPES)
+    if rng.random() < 0.1:
+        label = rng.choice(CHARSET_LABELS)
+        if label == label.strip():
+            ct = 'text/plain; charset=' + label
+    content = rand_content(rng, b)
+    if rng.random() < 0.1 and M.content_legal(rng.choice(TEXT_CONTENTS), b):
+        content = rng.choice([c for c in TEXT_CONTENTS if M.content_legal(c, b)])
+    return Part(name, content, filename=fn,
+                ext=rng.choice(EXTS) if rng.random() < 0.3 else None, ctype=ct, style=st)
 
 
 def rand_op(rng, p, b):
@@ -1392,6 +1446,8 @@ def rand_case(rec, rng):
     elif r < 0.36 and parts:
         p = rng.choice(parts)
         limits = {'headers': max(0, len(M.header_block(p)) + rng.choice([-1, 0, 1]))}
+    elif r < 0.42:
+        limits = {'charset': rng.choice(CHARSET_LABELS)}
     return make_case(b, parts, plan, pre, epi, fcrlf, quoted=rng.choice([None, None, True]), transport=tr, ics=ics,
                      limits=limits, asgi_cl=rng.random() < 0.7, tag='R')
 
@@ -1450,7 +1506,7 @@ def run(rec):
     counter = [0]
     times = []
     for name, fn in (('P', phase_boundary_param), ('M', phase_meta), ('B', phase_consumption), ('L', phase_limits),
-                     ('D', phase_align), ('F', phase_align_corrupt), ('E', phase_corrupt), ('A', lambda r: phase_forms(r, counter))):
+                     ('T', phase_text), ('D', phase_align), ('F', phase_align_corrupt), ('E', phase_corrupt), ('A', lambda r: phase_forms(r, counter))):
         t0, e0 = rec.elapsed(), rec.evaluations
         fn(rec)
         times.append('%s %.1fs/%d' % (name, rec.elapsed() - t0, rec.evaluations - e0))
@@ -1502,7 +1558,7 @@ def floors(rec):
         ('mon.op.skip', 200), ('mon.op.data_catch', 20), ('mon.op.pipe', 10),
         ('random.valid', 40 if q else 400), ('random.corrupt', 40 if q else 400), ('mon.boundary_param', 6),
         ('phase.A.done', rec.nshards), ('phase.B.done', rec.nshards), ('phase.M.done', rec.nshards),
-        ('phase.L.done', rec.nshards), ('phase.D.done', rec.nshards), ('phase.F.done', rec.nshards), ('align.corrupt', 300), ('phase.E.done', rec.nshards),
+        ('phase.L.done', rec.nshards), ('phase.D.done', rec.nshards), ('phase.T.done', rec.nshards), ('text.ok', 200), ('text.fail', 200), ('cls.limit.charset', 100), ('phase.F.done', rec.nshards), ('align.corrupt', 300), ('phase.E.done', rec.nshards),
     ]:
         rec.floor(name, n)
 
